@@ -67,6 +67,12 @@ CLAIMED.update({
     "C10": ("Proof that writeAuditLogs builds one record per task (id, process name, command, parameters, tags, timing), links every input's own record (looked up by path, sub-stream members included) under the input's path as Upstream, attaches that one record to every output IP and writes it next to every non-streaming output; sortedness/merging helpers of the audit tree.",
             "Assumed: inputs of one task are distinct IP objects (inputsDistinct); the sidecar JSON on disk is what the in-memory record marshals to (encoding/json, C11); reading an upstream record back from its sidecar returns the record that was written (loadedAudit abstraction). Merging of upstream tags into the task's tags is not under proof (invariants too heavy for the solvers).",
             "3/C10"),
+    "C11": ("Proof of the per-function facts that make provenance survive a restart: an IP for an existing file loads its record from exactly the side-car path (<path>.audit.json) that WriteAuditLogToFile writes the IP's record to; a cached record is never reloaded; UnmarshalAuditInfoJSONFile reads the named file, decodes the bytes read into the record it returns, and treats an unreadable or undecodable file as fatal (only an absent file yields an empty record); writeAuditLogs links every input's own (loaded) record under the input's path; and a structural check that every field of AuditInfo, recursively, survives encoding/json (exported, no '-' tag, no interface/func/chan, no colliding names).",
+            "Assumed: encoding/json round-trips a value of a type that passes the structural check (Unmarshal(Marshal(x)) == x; the library is not verified); the file system keeps the side-car files between runs; the modifies clause of UnmarshalAuditInfoJSONFile (it fills only the record it allocates) is assumed because json.Unmarshal works by reflection. The comparison of whole lineages across different run histories is a paper argument from these facts (induction over the DAG), not an obligation.",
+            "3/C11"),
+    "C19": ("Proof, for every stream length and every receive/send schedule of the component's own go-routine, of the source and selector components: ParamSource, FileSource, FileGlobber (all patterns, after its dependency stream ended), FileToParamsReader and CommandToParams put exactly the given / matching / read items on their out-port log, once each, in order (loop invariants over the port's send log); IPSelectorSync reads one item per in-port in lock step, passes on only complete aligned tuples, and sends a tuple's members (each on the out-port named like its in-port) only if every member satisfies the predicate.",
+            "NOT decided here: the Cartesian product of FileCombinator / ParamCombinator (recursive combine: nonlinear index arithmetic, not attempted), FileSplitter and Concatenator (file contents: bufio/os, outside the model), that IPSelectorSync sends every member of a passing tuple (only 'nothing else is sent' is proved). Assumed: the scanner abstraction of bufio.Scanner (a fixed sequence of lines), filepath.Glob as a function of pattern and file-system epoch, the selection predicate is a function of the IP, every in-port name of the selector has an out-port of the same name, closing the out-ports sends nothing (CloseAllOutPorts, trusted).",
+            "3/C19"),
 })
 
 NA = {
